@@ -13,7 +13,7 @@ def NOT_REPRODUCED(msg=''):
     print('not reproduced', msg); sys.exit(0)
 
 
-p = Path(CubicBezier((-40+1j), (-40-40j), (-40+0j), 0j), Line(0j, (-40+1j)), QuadraticBezier((-40+1j), (-40-40j), (-40+1j)))
+p = Path(CubicBezier((-40+1j), (-40-40j), (-40+0j), 0j), QuadraticBezier(0j, (-40-40j), 0j), Line(0j, (-40+1j)))
 opts = dict(useSandT=False, use_closed_attrib=True, rel=False)
 d = p.d(**opts)
 try:
